@@ -332,6 +332,24 @@ def run_C07(ctx, proof_ok):
                              "ndim_mismatch_sweep_cases": n5}}
 
 
+def run_C17(ctx, proof_ok):
+    import c17
+
+    r = lib.rng(17)
+    n1, d1 = c17.search_crlb(r, budget(ctx.tier, 150, 3000))
+    n2, d2 = c17.search_confint(r, budget(ctx.tier, 100, 2000))
+    n3, d3 = c17.search_sequence(r, budget(ctx.tier, 12, 200))
+    ctx.violations.extend(d1 + d2 + d3)
+    return {"evaluations": n1 + n2 + n3, "distinct_nontrivial": n1 + n2 + n3,
+            "rule": "random full-rank complex Jacobians/Hessians over batch shapes (), (3,), (2,2), (1,2), 1-4 parameters, weights, "
+                    "sigma2 in {1, 0.04, 2.5}, log on/off: crlb / crlb_split vs trace(W inv(Re(J^H J)/sigma2)) computed per batch "
+                    "element, gradient vs central finite differences of that formula along a smooth J(x); confint (with and "
+                    "without Hessian) vs t-quantile (numerical integration) * sqrt(diag(SSE/dof * inverse)); Sequence.crlb/confint "
+                    "vs the stats functions on the sequence's own Jacobian/Hessian",
+            "samples": [{"batch": [3], "nparam": 2, "npoint": 5, "sigma2": 0.04, "log": False}],
+            "distribution": {"crlb_cases": n1, "confint_cases": n2, "sequence_cases": n3}}
+
+
 def merge_results(a, b, rule):
     out = dict(a)
     out["evaluations"] = a["evaluations"] + b["evaluations"]
@@ -665,6 +683,18 @@ PROPS["C07"] = {
     "partial": ["proved: the shape algebra (result spec, failure criterion, commutativity, idempotence), the index lemma behind "
                 "`scalar_prod`/`matrix_prod` (inserted axes + right-aligned broadcasting = left-aligned pairing) and `axes=` placement; "
                 "`vectorised_eq_scalar` for whole programs is the metamorphic search on the real code (every grid index), not a theorem"],
+}
+
+PROPS["C17"] = {
+    "lean_modules": ["EpgVerif.Props.C17"],
+    "tie": [],
+    "audit": "EpgVerif/Audit/C17.lean",
+    "run": run_C17,
+    "replay": replay_generic,
+    "theorems_hint": ["crlb_signatures", "confint_signatures", "inverse_derivative", "crlb_gradient_exact"],
+    "partial": ["proved: the contraction patterns of the current source are the intended ones (decide on the regenerated strings), "
+                "Fisher = Re(J^H J) and symmetric, derivative of the inverse and hence of tr(W I^-1) given a differentiable inverse; "
+                "numpy's einsum/inv/cond, the t-table and the batch plumbing are tied by the numeric search only"],
 }
 
 NOT_CLAIMED = {}
